@@ -85,6 +85,15 @@ def check(chk, repo):
            cand_ok(bs.init, t0), f"initial value is '{show(bs.init)[:200]}'", line=li.line)
     rep.fn("SCAN-candidate", fn, "candidate is max(cost(t), w(t, x)) with t = idx_nodes[position + 1]",
            cand_ok(bs.cand, nxt), f"candidate is '{show(bs.cand)[:200]}'", line=li.line)
+    from ..schema import weight_oriented
+    for what, v, t in (("initial value", bs.init, t0), ("candidate", bs.cand, nxt)):
+        wgt = split_candidate(v, ("attr", node(t), "cost"), "max")
+        if wgt is not None and weight_of(wgt) and weight_mentions(wgt, node(t), x):
+            rep.fn("SCAN-orientation", fn, f"{what}: the arc weight is d(training sample, query) in this order",
+                   weight_oriented(wgt, node(t), x),
+                   "the arguments of the metric / the row and column of the matrix are (query, training sample): for a "
+                   "non-symmetric dissimilarity this is not the d(t, x) of the definition (and not what the other scan "
+                   "step uses)", line=li.line)
     rep.fn("SCAN-accept", fn, f"acceptance: candidate < {bs.best}", bs.relation in ("cand<best", "cand<=best"),
            f"acceptance relation is {bs.relation} (arg-min needs candidate below the running minimum)", line=li.line)
     # companions
